@@ -257,6 +257,11 @@ def scripts(cs):
         + [W(f'/new/another long file name number {k:02d}.bin', blob(k + 1, 40 + k)) for k in range(n_new)]
         + [dict(op='mkdir', path='/old'), W('/old/again.txt', blob(cs + 1, 33)), dict(op='rmdir', path='/new', _expect='ENOTEMPTY'),
            dict(op='unlink', path='/keep.bin'), W('/new/last.bin', blob(2 * cs, 34))])
+    # a long name equal, once upper-cased, to the 8.3 alias the next file would get (look-ups compare the UPPER-CASED long name)
+    yield 'alias-candidate-equals-an-upper-cased-long-name', [
+        W('/groß~1', blob(cs + 7, 41)), W('/Gross', blob(2 * cs + 1, 42)), dict(op='append', path='/Gross', data=blob(5, 43)),
+        W('/straß~2', blob(cs + 88, 44)), W('/strassenbahn', blob(2 * cs + 1, 45)), dict(op='touch', path='/strassenbahn'), W('/straß~2', blob(3, 46)),
+        dict(op='unlink', path='/Gross'), dict(op='append', path='/groß~1', data=blob(cs, 47))]
     yield 'growth-from-empty-and-far-seeks', [
         dict(op='touch', path='/t'), dict(op='truncate', path='/t', size=2 * cs + 1, buffering=0),
         dict(op='touch', path='/u'), dict(op='append', path='/u', data=blob(cs, 8)),
